@@ -267,6 +267,34 @@ pub fn check_corpus(case: &super::c02::CorpusCase, st: &mut Stats) -> Check {
     Ok(())
 }
 
+/// single strings at the 3-/4-byte LEB128 prefix boundary (2^21 bytes)
+#[derive(Clone, Debug, serde::Serialize, serde::Deserialize)]
+pub struct HugeString {
+    pub len: usize,
+    pub which: u8,
+}
+
+pub fn check_huge_string(h: &HugeString, st: &mut Stats) -> Check {
+    let long = "n".repeat(h.len);
+    let text = match h.which % 3 {
+        0 => format!("com.example.{long} -> a:\n    1:2:void m(int):3:4 -> x\ncom.example.After -> b:\n    void y() -> z\n"),
+        1 => format!("com.example.Foo -> a:\n    1:2:void m({long}):3:4 -> x\n    void after() -> y\ncom.example.After -> b:\n"),
+        _ => format!("com.example.Foo -> {long}:\n    void m() -> x\ncom.example.After -> b:\n    void y() -> z\n"),
+    };
+    st.evaluations += 1;
+    st.class("file with a single string at the 2^21-byte length-prefix boundary");
+    st.nontrivial(h.len as u64 * 3 + h.which as u64);
+    let ast = crate::model::lineparse::to_ast(text.as_bytes()).ok_or_else(|| Fail::new("harness", "huge-string mapping not recognised"))?;
+    let model = Model::new(&ast);
+    let buf = write_cache(text.as_bytes())?;
+    check_bytes_layout(buf.bytes(), st)?;
+    let l = layout::decode(buf.bytes()).map_err(|e| Fail::new("layout-decode", e))?;
+    check_against_model(&l, &model).map_err(|(sig, msg)| Fail::new(&sig, crate::engine::truncate(&msg, 600)))?;
+    let cache = parse_cache(&buf)?;
+    guarded(|| cache.0.test()).map_err(|p| Fail::new("self-test", format!("ProguardCache::test() rejected a freshly written file: {}", crate::engine::truncate(&p, 300))))?;
+    Ok(())
+}
+
 pub fn run(ctx: &Ctx) -> Report {
     let mut rep = Report::new(ID, "exploration", ctx);
     rep.rule = "Cases: grammar-generated mapping ASTs (representable domain; classes without members, members without by-params entries, shared strings, non-ASCII and >127-byte / >16383-byte strings), a wide profile (up to 400 similar class names) and the corpus files. Oracle: independent layout decoder (header magic/version/counts, exact file length, zero padding, strictly sorted classes, member and by-params ranges tiling their sections in class order, sortedness inside classes, every offset the start of a sequentially decoded length-prefixed UTF-8 string or the absent sentinel where allowed) plus equality of the decoded records with the records the reference model derives from the AST, plus ProguardCache::test(). evaluations = files written and decoded. Non-trivial = distinct files with >=2 classes and >=1 by-params entry in a class other than the first.".into();
@@ -282,6 +310,17 @@ pub fn run(ctx: &Ctx) -> Report {
         .flat_map(|p| [false, true].map(|crlf| super::c02::CorpusCase { path: p.clone(), crlf, pick: 0, max_classes: 0 }))
         .collect();
     rep.run_enum("corpus", &corpus, check_corpus);
+    let mut huge = Vec::new();
+    for len in [(1usize << 21) - 1, 1 << 21, (1 << 21) + 1] {
+        for which in 0..3u8 {
+            huge.push(HugeString { len, which });
+        }
+    }
+    if ctx.tier == crate::engine::Tier::Thorough {
+        huge.push(HugeString { len: (1 << 28) - 1, which: 0 });
+        huge.push(HugeString { len: 1 << 28, which: 1 });
+    }
+    rep.run_enum("huge-strings", &huge, check_huge_string);
     super::scale::run(&mut rep, ctx, "C09");
     rep
 }
@@ -293,6 +332,7 @@ pub fn replay(stage: &str, case: &Value) -> Check {
     }
     match stage {
         "ast" | "wide" | "tall" => check_case(&serde_json::from_value(case.clone()).map_err(|e| Fail::new("harness-replay", e.to_string()))?, &mut st),
+        "huge-strings" => check_huge_string(&serde_json::from_value(case.clone()).map_err(|e| Fail::new("harness-replay", e.to_string()))?, &mut st),
         "corpus" => check_corpus(&serde_json::from_value(case.clone()).map_err(|e| Fail::new("harness-replay", e.to_string()))?, &mut st),
         _ => Err(Fail::new("harness-replay", format!("unknown stage {stage}"))),
     }
